@@ -85,6 +85,7 @@ func (c *FnVC) unknownCall(x *ssa.Call, what string) {
 		c.atAsserts(x, name, fmt.Sprintf("%s#%d", shortCallee(name), c.callN[name]), args, atys)
 	}
 	assumed := false
+	pureAssumed := false
 	if c.ct != nil {
 		desc := what
 		if cc := x.Common(); cc.StaticCallee() == nil && !cc.IsInvoke() {
@@ -96,11 +97,20 @@ func (c *FnVC) unknownCall(x *ssa.Call, what string) {
 				c.trustedUsed["assumed not to panic: "+desc+" (in "+c.fnName()+")"] = true
 			}
 		}
+		for _, a := range c.ct.AssumePure {
+			if a != "" && strings.Contains(desc, a) {
+				assumed = true
+				pureAssumed = true
+				c.trustedUsed["assumed not to panic and to leave the heap alone: "+desc+" (in "+c.fnName()+")"] = true
+			}
+		}
 	}
 	if c.ct != nil && !c.ct.MayPanic && !c.ct.Abstract && !assumed {
 		c.oblige("callpanic", "false", x.Block(), "call without contract may panic: "+what+" "+c.srcAt(x.Pos()), x.Pos())
 	}
-	c.havocAll("unmodelled call: " + what + " " + c.srcAt(x.Pos()))
+	if !pureAssumed {
+		c.havocAll("unmodelled call: " + what + " " + c.srcAt(x.Pos()))
+	}
 	c.havocVal(x, "")
 }
 
